@@ -11,6 +11,12 @@ META = {
         level_note="Trusted: math/big, the boundary set chosen from the constants in spice.go (10^18, 2^63, 2^64). Aliased from/to pointers not exercised.",
         technique="property-based testing: exhaustive boundary product + rapid random triples vs big-integer reference model",
     ),
+    "C20": dict(
+        level_text="Complete enumeration of truncation lengths, single-byte corruptions and single-bit key errors for a set of wallets with 16- and 32-byte keys, plus random multi-byte damage; every outcome must be the identical wallet or an error under recover().",
+        design_ref="DESIGN.md §4 C20",
+        level_note="Trusted: Go crypto/aes, crypto/cipher GCM, encoding/gob. File system errors are not injected.",
+        technique="property-based testing: exhaustive fault enumeration over file bytes/keys + rapid random damage, round-trip oracle",
+    ),
 }
 
 def _na():
